@@ -302,6 +302,43 @@ func Format(w io.Writer, opt OutputOptions, objects ...Object) error {
 	return nil
 }
 
+// checkFormat reports the error with which formatting obj fails for a reason
+// which lies in the object itself (a stream nested in another object, an
+// operator outside a content stream, a number which is not finite), as opposed
+// to a failing output.  It writes nothing and has no side effects, so that
+// callers can refuse an object before the first byte of it has been written.
+func checkFormat(obj Object, opt OutputOptions) error {
+	var native Native
+	if obj != nil {
+		native = obj.AsPDF(opt)
+	}
+	switch x := native.(type) {
+	case Array:
+		for _, elem := range x {
+			if err := checkFormat(elem, opt); err != nil {
+				return err
+			}
+		}
+	case Dict:
+		for _, val := range x {
+			if err := checkFormat(val, opt); err != nil {
+				return err
+			}
+		}
+	case Operator:
+		if !opt.HasAny(OptContentStream) {
+			return errors.New("operator outside content stream")
+		}
+	case Real:
+		if math.IsNaN(float64(x)) || math.IsInf(float64(x), 0) {
+			return fmt.Errorf("cannot write the non-finite number %v", float64(x))
+		}
+	case *Stream:
+		return errors.New("direct stream objects are not allowed")
+	}
+	return nil
+}
+
 // doFormat writes the textual representation of a single object, with optional
 // leading white space.
 //
